@@ -159,6 +159,22 @@ def run(ck, ix, tier):
              (isinstance(v, ast.BinOp) and isinstance(v.op, ast.BitOr) and norm(v.left) == "self._active_ctx.defaults" and norm(v.right) == "kwargs")
         ck.check(ok, "G-PROV", "enable_contexts|call-kwargs-override-enclosing-defaults", fi.loc(a), "call keyword arguments override the enclosing chain's defaults",
                  f"`{norm(a)}` does not let the call's keyword arguments override the enclosing defaults")
+    # endpoint normalisation on first activation (the `checked` flag)
+    norm_tests = [t for t in walk_local(fi.node) if isinstance(t, ast.If) and any(isinstance(c, ast.Call) and call_name(c) == "remove_transformation" for c in ast.walk(t))]
+    ck.floor("G-PROV", len(norm_tests), 1, "endpoint normalisation test in enable_contexts")
+    for t in norm_tests:
+        tt = t.test
+        parts = tt.values if isinstance(tt, ast.BoolOp) else [tt]
+        cmp_ok = all(isinstance(x, ast.Compare) and isinstance(x.ops[0], ast.NotEq) for x in parts)
+        ok = isinstance(tt, ast.BoolOp) and isinstance(tt.op, ast.Or) and len(parts) == 2 and cmp_ok
+        ck.check(ok, "G-PROV", "enable_contexts|rule-renormalised-if-either-endpoint-differs", fi.loc(t),
+                 "a rule is re-keyed when either endpoint is not in base dimensions",
+                 f"`{norm(tt)}`: a rule whose source *or* target is a derived dimension must be re-keyed to base dimensions (otherwise the path search never finds it)")
+        rm = [c for c in ast.walk(t) if isinstance(c, ast.Call) and call_name(c) == "remove_transformation"]
+        ad = [c for c in ast.walk(t) if isinstance(c, ast.Call) and call_name(c) == "add_transformation"]
+        ok2 = len(rm) == 1 and len(ad) == 1 and [norm(a) for a in rm[0].args] == ["src", "dst"] and [norm(a) for a in ad[0].args] == ["src_", "dst_", "func"]
+        ck.check(ok2, "G-PROV", "enable_contexts|rule-rekeyed-to-base-dimensions", fi.loc(t), "old key removed, same function added under the base-dimension key",
+                 "the rule is not moved from (src, dst) to (base src, base dst) with the same function")
     fc = [c for c in walk_local(fi.node) if isinstance(c, ast.Call) and call_name(c) == "from_context"]
     ck.floor("G-PROV", len(fc), 1, "from_context call")
     for c in fc:
